@@ -476,6 +476,11 @@ inline py::tuple StructSequenceGetFields(const py::handle& object) {
 }
 
 inline void TotalOrderSort(py::list& list) {  // NOLINT[runtime/references]
+    // A failed in-place sort leaves the list in an unspecified (partially sorted) order.
+    // Keep a copy of the original order to restore it if the keys are not sortable at all.
+    const py::list original = EVALUATE_WITH_LOCK_HELD(
+        py::reinterpret_steal<py::list>(PyList_GetSlice(list.ptr(), 0, PyList_GET_SIZE(list.ptr()))),
+        list);
     try {
         // Sort directly if possible.
         if (static_cast<bool>(EVALUATE_WITH_LOCK_HELD(PyList_Sort(list.ptr()), list)))
@@ -504,6 +509,11 @@ inline void TotalOrderSort(py::list& list) {  // NOLINT[runtime/references]
                     // Found incomparable user-defined key types.
                     // The keys remain in the insertion order.
                     PyErr_Clear();
+                    const scoped_critical_section cs{list};
+                    if (PyList_SetSlice(list.ptr(), 0, PyList_GET_SIZE(list.ptr()), original.ptr()) <
+                        0) [[unlikely]] {
+                        throw py::error_already_set();
+                    }
                 } else [[unlikely]] {
                     std::rethrow_exception(std::current_exception());
                 }
